@@ -82,8 +82,13 @@ def main_merge(args):
         _write_output(mfn, text)
         logger.info("Merge result written to %s", mfn)
     else:
-        # Write merged notebook to terminal
-        nbformat.write(merged, sys.stdout)
+        # Write merged notebook to terminal: as ASCII-only JSON unless the
+        # stream takes UTF-8 (the error handler that keeps printing from
+        # failing writes \\xNN and \\UNNNNNNNN escapes, which JSON does not have)
+        encoding = (getattr(sys.stdout, "encoding", None) or "").lower()
+        nbformat.write(
+            merged, sys.stdout,
+            ensure_ascii=encoding.replace("-", "").replace("_", "") != "utf8")
     return returncode
 
 
